@@ -207,9 +207,20 @@ Proof.
     vm_compute in F; try discriminate F; vm_compute; reflexivity.
 Qed.
 
+(* the outermost open mark of a collector's stack is its own parenthesis (the
+   test of the F30 repair: no collector inside a [...] segment) *)
+Lemma bottom_of_parens n : bottom_of ("("%char :: repeat "("%char n) = Ok "("%char.
+Proof. induction n as [|n IH]; [reflexivity | exact IH]. Qed.
+
 Lemma coll_nest strip sepc S A op n acc sa sc :
   step strip sepc (Cst S A op n acc sa sc) "("%char = Ok (Cst S A op (Datatypes.S n) (snoc acc "("%char) false false).
-Proof. unfold Cst. destruct n as [|[|n]]; destruct sa, sc; vm_compute; reflexivity. Qed.
+Proof.
+  unfold Cst. destruct n as [|[|n]]; destruct sa, sc; try (vm_compute; reflexivity);
+    unfold step; cbn -[bottom_of];
+    change (bottom_of (_ :: _ :: _ :: repeat "("%char n))
+      with (bottom_of ("("%char :: repeat "("%char (Datatypes.S (Datatypes.S n))));
+    rewrite bottom_of_parens; reflexivity.
+Qed.
 
 Lemma coll_unnest strip sepc S A op n acc sa sc :
   step strip sepc (Cst S A op (Datatypes.S n) acc sa sc) ")"%char = Ok (Cst S A op n (snoc acc ")"%char) false false).
